@@ -60,7 +60,7 @@ def custom_run(ctx, res, cw):
         for f in judge_run(meta, blocks):
             (viol if f.kind == "violation" else mism).append((p, meta, f))
         lines = [l for l in open(p).read().splitlines() if l != "edges on"]
-        for (kind, k, mode) in F.fault_points(ctx, tot):
+        for (kind, k, mode) in F.fault_points(ctx, tot, exhaustive=meta.get("exhaustive", False)):
             fl = f"fault {kind} {k}" + (f" {mode}" if mode else "")
             cw.add([fl] + lines, dict(meta, fault=fl, base=os.path.basename(p)))
     fpaths = [p for p in cw.paths if p not in set(base_paths)]
